@@ -80,17 +80,21 @@ def qmOp (args : List String) : String :=
   match args with
   | ["run", fb, idsS, pre, chunks] =>
     let cs := (chunks.splitOn "/").map fun c => if c == "-" then [] else c.splitOn ";"
-    -- messages already in storage when the queue starts: P<id>:<ts>:<r.r.r>:<0|1>
-    let pres : List (Nat × Nat × List Nat × Bool) := if pre == "-" then [] else (pre.splitOn ";").filterMap fun w =>
+    -- messages already in storage when the queue starts: P<id>:<ts>:<r.r.r>:<0|1>[:<attempts>]
+    let pres : List (Nat × Nat × List Nat × Bool × Nat) := if pre == "-" then [] else (pre.splitOn ";").filterMap fun w =>
       match ((w.drop 1).toString).splitOn ":" with
       | [a, b, c, d] => match a.toNat?, b.toNat?, parseDotsQ c with
-        | some x, some y, some rs => some (x, y, rs, d == "1")
+        | some x, some y, some rs => some (x, y, rs, d == "1", 0)
         | _, _, _ => none
+      | [a, b, c, d, e] => match a.toNat?, b.toNat?, parseDotsQ c, e.toNat? with
+        | some x, some y, some rs, some at0 => some (x, y, rs, d == "1", at0)     -- the attempt counter the storage holds
+        | _, _, _, _ => none
       | _ => none
     let rc : Nat → List Nat := fun id => match pres.find? (·.1 == id) with | some e => e.2.2.1 | none => []
-    let nn : Nat → Bool := fun id => match pres.find? (·.1 == id) with | some e => e.2.2.2 | none => true
+    let nn : Nat → Bool := fun id => match pres.find? (·.1 == id) with | some e => e.2.2.2.1 | none => true
+    let att : Nat → Nat := fun id => match pres.find? (·.1 == id) with | some e => e.2.2.2.2 | none => 0
     match parseNatList idsS with
-    | some ids => qmRun (fb == "1") ids (QM.start (pres.map fun e => (e.1, e.2.1)) rc nn) cs []
+    | some ids => qmRun (fb == "1") ids (QM.startAt (pres.map fun e => (e.1, e.2.1)) rc nn att) cs []
     | none => "bad-op"
   | _ => "bad-op"
 
